@@ -398,7 +398,112 @@ func (t *tr) loopFuel(s *ast.ForStmt, e *env) int64 {
 	}
 	_ = types.Typ
 	if c.Op == token.LEQ {
+		if kd.bits < 64 && bound >= (int64(1)<<uint(kd.bits-boolToInt(kd.signed)))-1 {
+			return bad("v <= C with C the maximum of the type never terminates")
+		}
 		return bound + 1
 	}
 	return bound
+}
+
+// rangeLoop translates `for _, v := range <slice parameter> { body }` as a
+// structurally recursive fold over a Lean list; what the body reads from each
+// element is declared in the spec ("range_elems").
+func (t *tr) rangeLoop(s *ast.RangeStmt, e *env, k cont) []string {
+	if s.Key != nil {
+		if id, ok := s.Key.(*ast.Ident); !ok || id.Name != "_" {
+			t.fail(s, "range loops must ignore the index")
+		}
+	}
+	root, names, index, ok := t.pathOf(s.X)
+	if !ok {
+		t.fail(s, "range over something that is not a parameter path")
+	}
+	if _, isSlice := t.info.Types[s.X].Type.Underlying().(*types.Slice); !isSlice {
+		t.fail(s, "range over a non-slice")
+	}
+	elems := t.fi.spec.RangeElems[types.ExprString(s.X)]
+	if len(elems) == 0 {
+		t.fail(s, "no range_elems entry for %s in the spec", types.ExprString(s.X))
+	}
+	var compNames, compTypes []string
+	if t.rangeBind == nil {
+		t.rangeBind = map[string]string{}
+	}
+	for _, b := range elems {
+		kd, ok := kindOfName(b.Type)
+		if !ok {
+			t.fail(s, "range_elems: type %q of %s is not a supported basic type", b.Type, b.Expr)
+		}
+		n := t.freshName(b.Param, nil)
+		compNames = append(compNames, n)
+		compTypes = append(compTypes, kd.lean())
+		t.rangeBind[nows(b.Expr)] = n
+	}
+	key := t.pathKey(root, names)
+	listName := t.pathLeanName(root, names)
+	if _, ok := t.fi.byKey[key]; !ok {
+		p := &leanParam{name: listName, typ: "List (" + strings.Join(compTypes, " × ") + ")",
+			origin: paramOrigin{rootIdx: root, names: names, index: index}}
+		t.fi.usedNames[listName] = t.fi.roots[root]
+		t.fi.byKey[key] = p
+		t.fi.params = append(t.fi.params, p)
+	}
+	state := t.assignedTargets(s.Body.List, e)
+	if len(state) == 0 {
+		t.fail(s, "loop without observable effect")
+	}
+	isState := map[string]bool{}
+	var stTypes []string
+	for _, n := range state {
+		isState[n] = true
+		kd, ok := e.kinds[n]
+		if !ok {
+			t.fail(s, "range loops may only assign locals (not %s)", n)
+		}
+		stTypes = append(stTypes, kd.lean())
+	}
+	var ctxDecl, ctxArgs []string
+	for _, n := range e.order {
+		if !isState[n] {
+			ctxDecl = append(ctxDecl, fmt.Sprintf("(%s : %s)", n, e.kinds[n].lean()))
+			ctxArgs = append(ctxArgs, n)
+		}
+	}
+	t.fi.loopN++
+	aux := fmt.Sprintf("%s_loop%d", t.fi.leanName, t.fi.loopN)
+	stTuple := tuple(state)
+	recCall := func(list string) string {
+		return aux + " @@PA@@" + sp(strings.Join(ctxArgs, " ")) + " " + list + " " + strings.Join(state, " ")
+	}
+	save := t.inLoop
+	next := func(*env) []string { return []string{recCall("rest")} }
+	t.inLoop = &loopCtx{brk: func(*env) []string { return []string{stTuple} }, cont: next}
+	g := len(t.guards)
+	body := t.stmts(s.Body.List, e.clone(), next)
+	if len(t.guards) != g {
+		t.fail(s, "possibly-panicking division inside a loop")
+	}
+	t.inLoop = save
+	for _, b := range elems {
+		delete(t.rangeBind, nows(b.Expr))
+	}
+	def := []string{
+		fmt.Sprintf("/-- Loop %d of Go `%s`: a fold over the ranged slice. -/", t.fi.loopN, t.fi.spec.Func),
+		fmt.Sprintf("def %s @@PD@@%s : List (%s) → %s → %s", aux, sp(strings.Join(ctxDecl, " ")),
+			strings.Join(compTypes, " × "), strings.Join(stTypes, " → "), strings.Join(stTypes, " × ")),
+		"  | [], " + strings.Join(state, ", ") + " => " + stTuple,
+		"  | " + tuple(compNames) + " :: rest, " + strings.Join(state, ", ") + " =>",
+	}
+	def = append(def, indent(body, 2)...)
+	def = append(def, "")
+	t.fi.aux = append(t.fi.aux, def...)
+	return append([]string{"let " + stTuple + " := " + recCall(listName)}, k(e)...)
+}
+
+func boolToInt(b bool) int {
+	if b {
+		return 1
+	}
+	return 0
 }
